@@ -16,7 +16,7 @@ import io
 import random
 
 DEFAULT_CODES = {'GOV': 'GOV', 'TRE': 'TRE', 'CB': 'CB', 'HH': 'HH', 'CAP': 'CAP', 'BUS': 'BUS', 'TF': 'TF',
-                 'GOOD': 'GOOD', 'LAB': 'LAB', 'MON': 'MON', 'DEP': 'DEP'}
+                 'GOOD': 'GOOD', 'LAB': 'LAB', 'MON': 'MON', 'DEP': 'DEP', 'SRV': 'SRV'}
 
 
 def path(rng, n, lo, hi, step=True):
@@ -63,8 +63,12 @@ def gen_country(rng, key, role, n, allow_portfolio, grid=True):
         # a pair of user-defined sectors whose CONSTRUCTORS book a cash flow (a grant) between them
         custom = {'grant': rng.choice(['2.0', '1.5', '0.75']), 'inc_donor': rng.random() < 0.5,
                   'inc_recipient': rng.random() < 0.5}
+    second = None
+    if rng.random() < 0.25:
+        # a second market in the same country, supplied by the same firm and bought by the government
+        second = {'G2': path(rng, n, 2, 9)}
     return {'key': key, 'role': role, 'hh': hh, 'cap': cap, 'firm': firm, 'G': path(rng, n, 10, 30),
-            'custom': custom}
+            'custom': custom, 'second_market': second}
 
 
 def gen_zone(rng, cur, kind, keys, n, ext, grid=True):
@@ -222,7 +226,7 @@ def build(spec, model=None, **kw):
 
 def _build(spec, model=None, holder=None, order_seed=None, codes=None, ckey_map=None, solve=True, ext_first=None,
           max_iter=3000, unused_ext=False, tol=None, order_perm=None, codes_after_first_country=False,
-           query_zone=False, interleave_model=False):
+           query_zone=False, interleave_model=False, region_default_currency=False):
     """Build (and solve) the model described by spec with the REAL classes.
 
     order_seed: None = canonical declaration order; int = a random linear extension per country.
@@ -278,7 +282,11 @@ def _build(spec, model=None, holder=None, order_seed=None, codes=None, ckey_map=
             cls = Country if c['role'] == 'single' else Region
             if interleave_model:
                 Model()      # an unrelated (empty) model object is instantiated in between
-            country = cls(mod, ccode, 'Country ' + ccode, currency=z['cur'])
+            if region_default_currency and c['role'] == 'region':
+                # as the bundled REG2 model does: a Region inherits the currency of the country added just before it
+                country = cls(mod, ccode, 'Country ' + ccode)
+            else:
+                country = cls(mod, ccode, 'Country ' + ccode, currency=z['cur'])
             b.countries[ck] = country
             b.zone_of[ck] = z['cur']
             steps = []
@@ -334,6 +342,9 @@ def _build(spec, model=None, holder=None, order_seed=None, codes=None, ckey_map=
                         (ck, 'DONOR'), Donor(country, 'DONOR', cu['grant'], cu['inc_donor']))))
                     steps.append(('RECIP', ['DONOR'], lambda country=country, ck=ck, cu=cu: S.__setitem__(
                         (ck, 'RECIP'), Recipient(country, 'RECIP', S[(ck, 'DONOR')], cu['inc_recipient']))))
+                if c.get('second_market'):
+                    steps.append(('SRV', [], lambda country=country, ck=ck: S.__setitem__(
+                        (ck, 'SRV'), Market(country, code(ck, 'SRV'), 'Services market'))))
                 f = c['firm']
                 if f['form'] == 'fixed':
                     steps.append(('BUS', [], lambda country=country, ck=ck, f=f: S.__setitem__(
@@ -341,12 +352,15 @@ def _build(spec, model=None, holder=None, order_seed=None, codes=None, ckey_map=
                                                          labour_input_name=code(ck, 'LAB'),
                                                          output_name=code(ck, 'GOOD')))))
                 else:
-                    steps.append(('BUS', ['GOOD'], lambda country=country, ck=ck, f=f: S.__setitem__(
+                    has2 = bool(c.get('second_market'))
+                    steps.append(('BUS', ['GOOD'] + (['SRV'] if has2 else []), lambda country=country, ck=ck, f=f, has2=has2: S.__setitem__(
                         (ck, 'BUS'), FixedMarginBusinessMultiOutput(country, code(ck, 'BUS'), 'Business',
                                                                     profit_margin=f['margin'],
                                                                     labour_input_name=code(ck, 'LAB'),
-                                                                    market_list=[S[(ck, 'GOOD')]]))))
+                                                                    market_list=[S[(ck, 'GOOD')]] + ([S[(ck, 'SRV')]] if has2 else [])))))
                     wiring.append(lambda ck=ck: S[(ck, 'GOOD')].AddSupplier(S[(ck, 'BUS')]))
+                if c.get('second_market'):
+                    wiring.append(lambda ck=ck: S[(ck, 'SRV')].AddSupplier(S[(ck, 'BUS')]))
             if order_perm and ck in order_perm:
                 by_name = {st[0]: st for st in steps}
                 ordered = [by_name[n] for n in order_perm[ck]]
@@ -411,6 +425,12 @@ def _build(spec, model=None, holder=None, order_seed=None, codes=None, ckey_map=
                 gov.AddVariable(v, 'Demand for goods in ' + ccode, '')
                 gov.SetExogenous(v, list(c['G']))
                 dem_terms.append(v)
+            if c.get('second_market'):
+                srv = S[(ck, 'SRV')]
+                scode = code(ck, 'SRV')
+                v2 = 'DEM_' + (scode if c['role'] == 'single' else '%s_%s' % (ckey_map.get(ck, ck), scode))
+                gov.AddVariable(v2, 'Government demand for services', '')
+                gov.SetExogenous(v2, list(c['second_market']['G2']))
             hh = S[(ck, 'HH')]
             hs = c['hh']
             if hs['F0'] is not None:
@@ -437,16 +457,21 @@ def _build(spec, model=None, holder=None, order_seed=None, codes=None, ckey_map=
             add_import(b, imp, code, ckey_map)
     for imp in spec['imports']:
         add_import(b, imp, code, ckey_map)
+    gift_var = {}
+    per_sector = {}
     for i, gf in enumerate(spec['gifts']):
         src = sector_for(b, gf['src'])
         dst = sector_for(b, gf['dst'])
-        if gf.get('same_var_as') is not None:
-            var = 'GIFT%d' % gf['same_var_as']
-            if var not in src.EquationBlock:
-                src.AddVariable(var, 'A gift', '2.0')
+        if gf.get('same_var_as') is not None and gf['same_var_as'] in gift_var:
+            var = gift_var[gf['same_var_as']]
         else:
-            var = 'GIFT%d' % gf.get('id', i)
-            src.AddVariable(var, 'A gift', gf['amount'])
+            # variable names repeat across sectors (GIFT_a, GIFT_b, ... per source sector): flows of different
+            # economies may well carry the same local name
+            n = per_sector.get(id(src), 0)
+            per_sector[id(src)] = n + 1
+            var = 'GIFT_' + 'abcdefgh'[n]
+            src.AddVariable(var, 'A gift', gf['amount'] if gf.get('amount') is not None else '2.0')
+        gift_var[gf.get('id', i)] = var
         mod.RegisterCashFlow(src, dst, var, is_income_source=gf['inc_src'], is_income_dest=gf['inc_dst'])
         b.flows.append({'kind': 'gift', 'src': src, 'dst': dst, 'var': var, 'spec': gf})
     mod.MaxTime = spec['maxtime']
@@ -510,7 +535,8 @@ def shape_of(spec):
     for z in spec['zones']:
         f = z['gov']['form'][:4] + ('+m' if z['gov']['money'] else '') + ('+d' if z['gov']['deposits'] else '')
         regs = [c for c in z['countries'] if c['role'] != 'central']
-        firms = ''.join(sorted(set(c['firm']['form'][0] + ('c' if c.get('cap') else '') + ('u' if c.get('custom') else '')
+        firms = ''.join(sorted(set(c['firm']['form'][0] + ('c' if c.get('cap') else '') + ('u' if c.get('custom') else '') +
+                                   ('2' if c.get('second_market') else '')
                                    for c in regs)))
         port = ''.join(sorted(set((c['hh']['portfolio'] or '-')[0] for c in regs)))
         parts.append('%s:%s:%s:%s' % ('fed' if z['kind'] == 'federation' else 'one', f, firms, port))
